@@ -22,6 +22,11 @@ structure Inv (s : St) : Prop where
   condOk : s.pc = .cond → s.waitState = 1 ∧ ∀ p, s.sig ≠ .pid p
   waitidOk : ∀ l, s.pc = .inWaitid l → s.waitState = 2 ∧ s.sig ≠ .minus
 
+theorem ex_some {α : Type} (o : Option α) (h : o.isSome = true) : ∃ x, o = some x := by
+  cases o with
+  | none => simp at h
+  | some x => exact ⟨x, rfl⟩
+
 theorem Inv.init : Inv St.init := by
   constructor <;> simp [St.init]
 
